@@ -82,6 +82,27 @@ def check(repo, rep):
             continue
         arg = v[2][0][2][0] if v[2][0][2] else None
         okg = arg is not None and arg[0] in ('gen', 'listcomp') and len(arg[2]) == 1 and arg[1] == ('attr', ('lp', arg[2][0][0]), 'data') and not arg[2][0][2]
+        if not okg and arg is not None and arg[0] in ('list', 'loopvar', 'tuple'):
+            # the joined sequence is a list the method fills in a loop over `others` (check the element, append its data)
+            jfn0 = cx.fn('core', 'AudioRegion.join')
+            op_ = ('p', jfn0.args.args[1].arg)
+            enters = [e for e in l.effects if e[0] == 'loop-enter' and e[1] == op_]
+            skips = [e for e in l.effects if e[0] == 'loop-skip' and e[1] == op_]
+            if skips and not enters and arg in (('list', ()), ('tuple', ())):
+                rep.ob('every joined element contributes its own data, unfiltered, in order', True, W(l.node), sample=dict(path='no element: nothing to join'))
+                continue
+            if enters:
+                elem = ('elem', op_)
+                apps = [i for i, e in enumerate(l.effects) if e[0] == 'call' and e[1][0] == 'call' and e[1][1][0] == 'attr' and e[1][1][2] == 'append' and e[1][2] == (('attr', elem, 'data'),)]
+                chks = [i for i, e in enumerate(l.effects) if e[0] == 'call' and ischeck(e[1], elem)]
+                guards = [c for c in l.conds if any(x == elem for x in walk(c[0]))]
+                rep.ob('every joined element contributes its own data, unfiltered, in order', len(apps) == 1 and not guards, W(l.node), 'AudioRegion.join:elements',
+                       'the loop over the regions appends %d time(s) per element under %d condition(s) on it' % (len(apps), len(guards)), loop_rule=True)
+                rep.ob('every joined element passes the parameter check in the iteration that hands it over', bool(chks) and bool(apps) and chks[0] < apps[0], W(l.node), 'AudioRegion.join:check-each',
+                       'check calls at %s, append at %s' % (chks, apps), loop_rule=True)
+                continue
+            rep.unknown('AudioRegion.join: how the joined sequence %s is built was not recognised' % show(arg)[:80])
+            continue
         rep.ob('every joined element contributes its own data, unfiltered, in order', okg, W(l.node), 'AudioRegion.join:elements', 'joined iterable is %s' % (show(arg)[:120] if arg else None))
         if okg:
             it = arg[2][0][1]
@@ -196,7 +217,9 @@ def check(repo, rep):
     nset = 0
     for mod, tree in repo.trees.items():
         for n in ast.walk(tree):
-            if isinstance(n, ast.Call) and ((isinstance(n.func, ast.Attribute) and n.func.attr == '__setattr__') or (isinstance(n.func, ast.Name) and n.func.id == 'setattr')):
+            is_ref = isinstance(n, ast.Attribute) and n.attr == '__setattr__' and isinstance(n.ctx, ast.Load) and not (isinstance(getattr(n, '_parent', None), ast.Call) and n._parent.func is n)
+            if is_ref or (isinstance(n, ast.Call) and ((isinstance(n.func, ast.Attribute) and n.func.attr == '__setattr__') or (isinstance(n.func, ast.Name) and n.func.id == 'setattr'))):
+                # (a call of the bypass, or a reference to it kept for later: put = partial(object.__setattr__, self))
                 # enclosing function / class
                 p = n
                 fn = cl = None
@@ -220,7 +243,7 @@ def check(repo, rep):
                 meta = cl is not None and cl.name == '_AudioRegionMetadata'
                 rep.ob('the frozen-dataclass bypass (object.__setattr__) is used only inside AudioRegion.__post_init__', inside or meta, cx.where(mod, n), '%s.%s:setattr' % (cl.name if cl else mod, fn.name if fn else '?'),
                        'setattr in %s.%s' % (cl.name if cl else mod, fn.name if fn else '?'))
-    rep.floor('object.__setattr__ sites', nset, 5)
+    rep.floor('object.__setattr__ sites', nset, 1)
     ef = Effects(cx.model)
     for name in ('__add__', '__radd__', '__mul__', '__rmul__', '__truediv__', 'join', '__getitem__', '__eq__', '__len__', '__bytes__', 'numpy', 'split') + ((checker.name,) if checker else ()):
         r = cx.model.find_method('core', cls, name)
